@@ -669,7 +669,11 @@ func grpcErrorFromTrailer(bufferPool *bufferPool, protobuf Codec, trailer http.H
 			retErr.details = append(retErr.details, d)
 		}
 		// Prefer the Protobuf-encoded data to the headers (grpc-go does this too).
-		retErr.code = Code(status.Code)
+		// The one exception is a zero code: the Grpc-Status trailer already told
+		// us that this is an error, so we must not downgrade it to OK.
+		if status.Code != 0 {
+			retErr.code = Code(status.Code)
+		}
 		retErr.err = errors.New(status.Message)
 	}
 
